@@ -239,3 +239,77 @@ B('j17_shared_make_response_wrong_label', ['C17'], 'R17.e',
         return resp
 ''', '''        return self._make_response(resp_iter, mimetype="application/json")
 '''))
+# payload chosen by an if / elif chain, text recognised by "payload is not None"; class tuple alias
+T('j17_payload_none_test', ['C17'],
+  (RS, 'class BasicRender(object):', "_TEXT_TYPES = (str, bytes)\n\n\nclass BasicRender(object):"),
+  (RS, _RR_TEXT, '''        payload = None
+        if isinstance(context, str):
+            payload = context.encode('utf8')
+        elif isinstance(context, bytes):
+            payload = context
+        if payload is not None:
+            if self._guess_json(payload):
+                return Response(payload, mimetype="application/json")
+            if b'<html' in payload[:168]:
+                return Response(payload, mimetype="text/html")
+            return Response(payload, mimetype="text/plain")
+        assert not isinstance(context, _TEXT_TYPES)
+'''))
+B('j17_payload_none_test_bytes_lost', ['C17'], 'R17.c',
+  (RS, _RR_TEXT, '''        payload = None
+        if isinstance(context, str):
+            payload = context.encode('utf8')
+        if payload is not None:
+            if self._guess_json(payload):
+                return Response(payload, mimetype="application/json")
+            if b'<html' in payload[:168]:
+                return Response(payload, mimetype="text/html")
+            return Response(payload, mimetype="text/plain")
+'''))
+T('j17_text_types_alias', ['C17'],
+  (RS, 'class BasicRender(object):', "_TEXT_TYPES = (str, bytes)\n\n\nclass BasicRender(object):"),
+  (RS, _RR_TEXT, '''        if isinstance(context, _TEXT_TYPES):
+            body = context.encode('utf8') if isinstance(context, str) else context
+            if self._guess_json(body):
+                label = "application/json"
+            else:
+                label = "text/html" if b'<html' in body[:168] else "text/plain"
+            return Response(body, mimetype=label)
+'''))
+# the encoder: contextlib.suppress instead of try / except / pass
+T('j17_encoder_suppress', ['C17'],
+  (RS, 'import itertools\n', 'import itertools\nfrom contextlib import suppress\n'),
+  (RS, '            try:\n                return dict(obj)\n            except Exception:\n                pass\n', '            with suppress(Exception):\n                return dict(obj)\n'),
+  (RS, '            try:\n                return list(obj)\n            except Exception:\n                pass\n', '            with suppress(Exception):\n                return list(obj)\n'))
+B('j17_encoder_suppress_narrow', ['C17'], 'R17.d',
+  (RS, 'import itertools\n', 'import itertools\nfrom contextlib import suppress\n'),
+  (RS, '            try:\n                return dict(obj)\n            except Exception:\n                pass\n', '            with suppress(KeyError):\n                return dict(obj)\n'))
+# error JSON: encoder options collected in a dict first
+T('j17_to_json_options_dict', ['C17'],
+  (E, '''        encoder = ClasticJSONEncoder(dev_mode=True, indent=indent,
+                                     sort_keys=sort_keys, ensure_ascii=False,
+                                     skipkeys=skipkeys)
+''', '''        options = dict(dev_mode=True, indent=indent, sort_keys=sort_keys,
+                       ensure_ascii=False, skipkeys=skipkeys)
+        encoder = ClasticJSONEncoder(**options)
+'''))
+B('j17_to_json_options_dict_no_dev', ['C17'], 'R17.d',
+  (E, '''        encoder = ClasticJSONEncoder(dev_mode=True, indent=indent,
+                                     sort_keys=sort_keys, ensure_ascii=False,
+                                     skipkeys=skipkeys)
+''', '''        options = dict(indent=indent, sort_keys=sort_keys,
+                       ensure_ascii=False, skipkeys=skipkeys)
+        encoder = ClasticJSONEncoder(**options)
+'''))
+# sniffing constants named at module / class level, keyword spellings, Response imported under another name
+T('j17_named_sniff_constants', ['C17'],
+  (RS, 'class BasicRender(object):', "_HTML_MARKER = b'<html'\n\n\nclass BasicRender(object):\n    _sniff_window = 168"),
+  (RS, "            if self._guess_json(context):", "            if self._guess_json(bytestr=context):"),
+  (RS, "            elif b'<html' in context[:168]:", "            elif _HTML_MARKER in context[:self._sniff_window]:"),
+  (RS, 'return Response(str(context), mimetype="text/plain")\n        return self._serialize_to_resp(context, request, _route)',
+       'return Response(response=str(context), mimetype="text/plain")\n        return self._serialize_to_resp(_route=_route, request=request, context=context)'),
+  (RS, 'from werkzeug.wrappers import Response\n', 'from werkzeug.wrappers import Response as _Response\n'),
+  (RS, 're:\\bResponse\\(', '_Response('))
+B('j17_named_sniff_constant_str', ['C17'], 'R17.b',
+  (RS, 'class BasicRender(object):', "_HTML_MARKER = '<html'\n\n\nclass BasicRender(object):"),
+  (RS, "            elif b'<html' in context[:168]:", "            elif _HTML_MARKER in context[:168]:"))
